@@ -57,7 +57,7 @@ static void sq_found(const char * key, const char * replay_args, const char * fm
    returns 0 and fills *status, or -1 on timeout */
 #include <sys/wait.h>
 #include <signal.h>
-static int sq_wait_child(pid_t pid, int timeout_s, int * status) {
+static int sq_wait_child(pid_t pid, double timeout_s, int * status) {
   double tend = sq_now() + timeout_s;
   for (;;) {
     pid_t r = waitpid(pid, status, WNOHANG);
